@@ -50,6 +50,7 @@ type vC13Backend struct {
 	mu    *sync.Mutex
 	recv  map[int64]*vC13Recv
 	resps map[int64][]byte // scripted raw response bytes by case id
+	pause map[int64]int64  // case ids whose response body is written in two parts, that many ms apart
 	heads map[int64]bool   // case ids whose request method is HEAD
 }
 
@@ -131,9 +132,21 @@ func (b *vC13Backend) conn(c net.Conn) {
 		r.svc, r.line, r.headers, r.body = b.name, line, hdrs, body
 		r.hits++
 		resp := b.resps[id]
+		pauseMs := b.pause[id]
 		b.mu.Unlock()
 		if resp == nil {
 			resp = []byte("HTTP/1.1 200 OK\r\nContent-Length: 0\r\n\r\n")
+		}
+		if he := bytes.LastIndex(resp, []byte("\r\n\r\n")); pauseMs > 0 && he >= 0 {
+			// header block and the first half of what follows at once, the rest after a pause: a response that is
+			// under way in good time and takes longer than the target timeout to complete
+			he = bytes.Index(resp, []byte("\r\n\r\n"))
+			cut := he + 4 + (len(resp)-he-4)/2
+			if _, err := c.Write(resp[:cut]); err != nil {
+				return
+			}
+			time.Sleep(time.Duration(pauseMs) * time.Millisecond)
+			resp = resp[cut:]
 		}
 		if _, err := c.Write(resp); err != nil {
 			return
@@ -244,6 +257,7 @@ func TestVerifC13(t *testing.T) {
 	mu := &sync.Mutex{}
 	recv := map[int64]*vC13Recv{}
 	resps := map[int64][]byte{}
+	pauses := map[int64]int64{}
 	for _, c := range cases[1:] {
 		if vStr(c["kind"]) != "req" {
 			continue
@@ -251,6 +265,9 @@ func TestVerifC13(t *testing.T) {
 		id := vInt(c["id"])
 		if r, ok := c["resp"].(map[string]any); ok {
 			resps[id] = vC13Response(r, vStr(c["method"]) == "HEAD")
+			if ms := vInt(r["pause_ms"]); ms > 0 {
+				pauses[id] = ms
+			}
 		}
 	}
 
@@ -275,7 +292,7 @@ func TestVerifC13(t *testing.T) {
 			t.Fatalf("verif: backend listen: %v", err)
 		}
 		defer ln.Close()
-		b := &vC13Backend{name: vStr(sv["name"]), ln: ln, mu: mu, recv: recv, resps: resps}
+		b := &vC13Backend{name: vStr(sv["name"]), ln: ln, mu: mu, recv: recv, resps: resps, pause: pauses}
 		go b.serve()
 		so := ServiceOptions{StripPrefix: vBool(sv["strip"]), TLSRedirect: false}
 		for _, h := range vList(sv["hosts"]) {
@@ -292,6 +309,9 @@ func TestVerifC13(t *testing.T) {
 			HealthCheckConfig: HealthCheckConfig{Path: DefaultHealthCheckPath, Interval: 50 * time.Millisecond, Timeout: 5 * time.Second},
 			ResponseTimeout:   DefaultTargetTimeout,
 			ForwardHeaders:    vBool(sv["forward"]),
+		}
+		if ms := vInt(sv["target_timeout_ms"]); ms > 0 {
+			to.ResponseTimeout = time.Duration(ms) * time.Millisecond
 		}
 		if err := router.DeployService(b.name, []string{ln.Addr().String()}, so, to, 10*time.Second, time.Second); err != nil {
 			t.Fatalf("verif: deploy %s: %v", b.name, err)
